@@ -708,6 +708,16 @@ def check_stop_writers(prog, rep, functions=None):
                 # helper): which literal is written under which condition is
                 # not decided here
                 computed.add(fn.qualname)
+                kept = _keeps_earlier(prog, fn, st, v)
+                if kept is False:
+                    rep.violation(
+                        'P-stop-writers', fn.qualname, construct,
+                        'the earlier stop reason is only the fallback of the '
+                        'newly computed one: a reason that is already set '
+                        '(budget, None result, callback) is overwritten; the '
+                        'first reason must win', line=st.lineno,
+                        file=mod.path)
+                    continue
                 rep.unknown('P-stop-writers', fn.qualname, construct,
                             'the stop reason is a computed value',
                             line=st.lineno, file=mod.path)
@@ -773,6 +783,65 @@ def check_stop_writers(prog, rep, functions=None):
             rep.violation('P-stop-priority', 'utils._info_appr',
                           'order of stop criteria: %s' % ' > '.join(lits),
                           'documented priority is e_vld > e > nswp')
+
+
+def _mentions_stop(prog, fn, e, depth=0):
+    """Does the value of ``e`` depend on info['stop'] (directly or through a
+    helper of the repository whose body reads the key)?  None = not known."""
+    for x in ast.walk(e):
+        if isinstance(x, ast.Subscript) and _is_sub(x, 'info', 'stop'):
+            return True
+        if isinstance(x, ast.Constant) and x.value == 'stop':
+            return True
+    for x in ast.walk(e):
+        if isinstance(x, ast.Call):
+            r = prog.resolve_dotted(fn.module, prog.dotted(x.func))
+            if r is not None and r[0] == 'ext':
+                continue
+            if r is None and isinstance(x.func, ast.Name) and \
+                    x.func.id in ('len', 'min', 'max', 'abs', 'float', 'int',
+                                  'bool', 'str'):
+                continue
+            if r is None or r[0] != 'teneva' or \
+                    not hasattr(r[1], 'node') or \
+                    not isinstance(r[1].node, ast.FunctionDef):
+                return None
+            callee = r[1]
+            if depth > 2:
+                return None
+            sub = _mentions_stop(prog, callee, callee.node, depth + 1)
+            if sub is not False:
+                return sub
+    return False
+
+
+def _keeps_earlier(prog, fn, st, v):
+    """A computed stop reason written outside an ``info['stop'] is None``
+    guard: True = the earlier reason has precedence (``info['stop'] or new``),
+    False = the earlier reason is only the fallback (``new or info['stop']``
+    with ``new`` independent of it), None = not decided."""
+    gs = norm_guards(prog, fn, st)
+    if _stop_is_none(gs):
+        return True
+    if isinstance(v, ast.BoolOp) and isinstance(v.op, ast.Or):
+        pos = [i for i, x in enumerate(v.values)
+               if _is_sub(x, 'info', 'stop')]
+        if pos and pos[0] == 0:
+            return True
+        if pos:
+            dep = [_mentions_stop(prog, fn, x) for x in v.values[:pos[0]]]
+            if all(d is False for d in dep):
+                return False
+        return None
+    if isinstance(v, ast.IfExp):
+        t = v.test
+        # new if new [is not None] else info['stop']
+        if _is_sub(v.orelse, 'info', 'stop') and \
+                not _is_sub(v.body, 'info', 'stop') and \
+                _mentions_stop(prog, fn, v.body) is False and \
+                _mentions_stop(prog, fn, t) is False:
+            return False
+    return None
 
 
 def _stop_guard(mod, fn, st, v, gs, pred, lit):
